@@ -2680,41 +2680,63 @@ impl DcpsDomainParticipant {
 
         let prefix = Guid::from(<[u8; 16]>::from(*handle)).prefix();
 
+        // The endpoints the removed participant announced (a matched endpoint is always a discovered one)
+        let removed_reader_handles: Vec<InstanceHandle> = self
+            .domain_participant
+            .discovered_reader_list
+            .iter()
+            .map(|x| x.dds_subscription_data.key().value)
+            .filter(|key| key[..12] == prefix)
+            .map(InstanceHandle::new)
+            .collect();
+        let removed_writer_handles: Vec<InstanceHandle> = self
+            .domain_participant
+            .discovered_writer_list
+            .iter()
+            .map(|x| x.dds_publication_data.key().value)
+            .filter(|key| key[..12] == prefix)
+            .map(InstanceHandle::new)
+            .collect();
+        let mut data_writer_handle_list = Vec::new();
+        for publisher in &self.domain_participant.user_defined_publisher_list {
+            for data_writer in &publisher.data_writer_list {
+                data_writer_handle_list.push((publisher.instance_handle, data_writer.instance_handle));
+            }
+        }
+        let mut data_reader_handle_list = Vec::new();
         for subscriber in &mut self.domain_participant.user_defined_subscriber_list {
+            let subscriber_handle = subscriber.instance_handle;
             for data_reader in &mut subscriber.data_reader_list {
+                data_reader_handle_list.push((subscriber_handle, data_reader.instance_handle));
                 // Remove samples
                 data_reader
                     .sample_list
                     .retain(|sample| sample.writer_guid[..12] != prefix);
-
-                let removed_writer_guids: Vec<_> = data_reader
-                    .matched_publication_list
-                    .iter()
-                    .filter(|m| m.key.value[0..12] == prefix)
-                    .map(|m| m.key.value)
-                    .collect();
-                for key in removed_writer_guids {
-                    data_reader
-                        .transport_reader
-                        .delete_matched_writer(key.into());
-                }
             }
         }
 
-        for publisher in &mut self.domain_participant.user_defined_publisher_list {
-            for data_writer in &mut publisher.data_writer_list {
-                for matched_subscription in &data_writer.matched_subscription_list {
-                    if matched_subscription.key.value[..12] == prefix {
-                        // Remove readers
-                        data_writer
-                            .writer
-                            .transport_writer
-                            .delete_matched_reader(matched_subscription.key.value.into());
-                    }
-                }
-                data_writer
-                    .matched_subscription_list
-                    .retain(|subscription| subscription.key.value[..12] != prefix);
+        // They are forgotten and un-matched exactly as if each of them had been deleted: matched lists, matched-status
+        // counts and RTPS proxies are updated and nothing is left to be matched again on the next iteration
+        for removed_reader_handle in removed_reader_handles {
+            self.domain_participant
+                .remove_discovered_reader(&removed_reader_handle);
+            for (publisher_handle, data_writer_handle) in &data_writer_handle_list {
+                self.remove_discovered_reader(
+                    removed_reader_handle,
+                    *publisher_handle,
+                    *data_writer_handle,
+                );
+            }
+        }
+        for removed_writer_handle in removed_writer_handles {
+            self.domain_participant
+                .remove_discovered_writer(&removed_writer_handle);
+            for (subscriber_handle, data_reader_handle) in &data_reader_handle_list {
+                self.remove_discovered_writer(
+                    removed_writer_handle,
+                    *subscriber_handle,
+                    *data_reader_handle,
+                );
             }
         }
 
